@@ -80,7 +80,7 @@ class PopenSpawn(SpawnBase):
             timeout = 1e6
 
         t0 = time.time()
-        while (time.time() - t0) < timeout and size and len(buf) < size:
+        while size and len(buf) < size:
             try:
                 incoming = self._read_queue.get_nowait()
             except Empty:
@@ -91,6 +91,10 @@ class PopenSpawn(SpawnBase):
                     break
 
                 buf += self._decoder.decode(incoming, final=False)
+            # the time limit only bounds the draining of a long queue: what
+            # is already queued is looked at even with timeout=0
+            if (time.time() - t0) >= timeout:
+                break
 
         r, self._buf = buf[:size], buf[size:]
 
